@@ -6,6 +6,7 @@ from .sorts import *      # noqa
 from . import types as Ty
 from . import front
 from .front import Unsupported
+from .state import sel_L
 from .state import (SV, State, const_sv, truthy, shape, field_type, GHOSTS, ghost, KIND, CLS, cls_in,
                     int_of, str_of, val_of, elem_type, declare_class)
 
@@ -209,8 +210,8 @@ class SpecEval(object):
 
     def extra_has_bound(self):
         """inside a quantifier the fact would mention a bound variable: skipped"""
-        return any(z3.is_expr(v) and z3.is_const(v) and str(v).startswith('q_') for v in self.extra.values()) or \
-            any(isinstance(v, SV) and str(v.term).startswith('q_') for v in self.extra.values())
+        return any(z3.is_expr(v) and z3.is_const(v) and v.decl().name().startswith('q_') for v in self.extra.values()) or \
+            any(isinstance(v, SV) and z3.is_const(v.term) and v.term.decl().name().startswith('q_') for v in self.extra.values())
 
     def ev_Subscript(self, n):
         base = self.ev(n.value)
@@ -225,7 +226,7 @@ class SpecEval(object):
         if hasattr(base, 'seq'):
             return base.seq
         if isinstance(base, SV):
-            return self.st.L[va(base.term)]
+            return sel_L(self.st, va(base.term))
         if z3.is_expr(base) and base.sort() == SeqVal:
             return base
         raise SpecError('not a sequence: %r' % (base,))
@@ -244,13 +245,19 @@ class SpecEval(object):
         if isinstance(base, SV):
             ty = Ty.strip_opt(base.ty)
             if isinstance(ty, Ty.TDict):
-                return SV(self.st.DV[va(base.term)][val_of(idx)], ty.v)
+                vterm = self.st.DV[va(base.term)][val_of(idx)]
+                if not self.extra_has_bound():
+                    # closed heap: a reference stored in a mapping points to an allocated object
+                    dv = getattr(self.st, 'DV', None)
+                    untouched = dv is not None and dv.eq(z3.Const('DV0', DVArr))
+                    self.typing.append(Implies(self.st.DK[va(base.term)][val_of(idx)], shape(self.st, vterm, ty.v, pre=untouched)))
+                return SV(vterm, ty.v)
             if isinstance(ty, Ty.TStr):
                 return z3.SubString(vs(base.term), int_of(idx), 1)
             if isinstance(ty, Ty.TTuple) and isinstance(idx, int):
-                return SV(self.st.L[va(base.term)][z3.IntVal(idx)], ty.ts[idx])
+                return SV(sel_L(self.st, va(base.term))[z3.IntVal(idx)], ty.ts[idx])
             i = int_of(idx)
-            seq = self.st.L[va(base.term)]
+            seq = sel_L(self.st, va(base.term))
             if isinstance(idx, int) and idx < 0:
                 i = z3.Length(seq) + idx
             return SV(seq[i], elem_type(ty))
@@ -397,7 +404,7 @@ class SpecEval(object):
             if isinstance(ty, Ty.TStr):
                 return z3.Contains(vs(cont.term), str_of(x))
             if isinstance(ty, (Ty.TList, Ty.TTuple)):
-                return z3.Contains(self.st.L[va(cont.term)], z3.Unit(val_of(x)))
+                return z3.Contains(sel_L(self.st, va(cont.term)), z3.Unit(val_of(x)))
             # unknown static type: decide by allocation kind
             a = va(cont.term)
             return z3.If(Or(KIND(a) == K_DICT, KIND(a) == K_SET), self.st.DK[a][val_of(x)],
@@ -514,18 +521,26 @@ class SpecEval(object):
         bound = []
         extra = dict(self.extra)
         sorts = sort if isinstance(sort, (list, tuple)) else [sort] * len(names)
+        # deterministic bound-variable names (name + nesting depth): the same clause over the same state terms yields the
+        # same AST, so an assumed invariant and the identical goal cancel syntactically
+        depth = sum(1 for k in self.extra if k.startswith('__q'))
+        extra['__q%d' % depth] = True
         for nm, sort in zip(names, sorts):
+            qn = 'q_%s_%d' % (nm, depth)
             if sort == 'Val':
-                c = fresh('q_' + nm, Val)
+                c = z3.Const(qn + 'v', Val)
                 extra[nm] = SV(c, Ty.ANY)
             elif sort == 'Str':
-                c = fresh('q_' + nm, StrS)
+                c = z3.Const(qn + 's', StrS)
                 extra[nm] = c
             elif sort == 'Seq':
-                c = fresh('q_' + nm, SeqVal)
+                c = z3.Const(qn + 'q', SeqVal)
+                extra[nm] = c
+            elif sort == 'Bool':
+                c = z3.Const(qn + 'b', BoolS)
                 extra[nm] = c
             else:
-                c = fresh('q_' + nm, IntS)
+                c = z3.Const(qn + 'i', IntS)
                 extra[nm] = c
             bound.append(c)
         sub = SpecEval(self.st, self.env, self.modname, self.old, self.result, extra)
@@ -557,7 +572,7 @@ class SpecEval(object):
             return z3.Length(vs(v.term))
         if isinstance(ty, (Ty.TDict, Ty.TSet)):
             return self.st.DSZ[va(v.term)]
-        return z3.Length(self.st.L[va(v.term)])
+        return z3.Length(sel_L(self.st, va(v.term)))
 
     def fn_seq(self, n):
         return self.seqterm(self.ev(n.args[0]))
